@@ -337,10 +337,20 @@ def random_script(rnd, n, layout="A"):
 
 # ---------------------------------------------------------------- main
 
-def design_level(rep, tier):
+ALL_DEVS = ["CloseDoesNotReanalyse", "RenameTaintsCache", "StaleDiagnosticsForDroppedFile", "PrepareRenameSlicesPastEol", "SourceLinePastEof", "CompletionSplitsInsideChar"]
+
+
+def design_level(rep, tier, open_devs):
     mc = os.path.join(SPEC, "MC_Lsp.tla")
-    for cfg, what in (("MC_Lsp_ideal.cfg", "ideal reading: Fresh, FreshShown, Total"), ("MC_Lsp_impl.cfg", "reading as coded: properties weakened by the recorded witnesses")):
-        r = V.tlc(mc, cfg=os.path.join(SPEC, cfg), workers=4, timeout=900, tag="C14-" + cfg[:-4])
+    # the reading of the current tree: the deviations that are still open (the cfg file in spec/ pins all six)
+    cur = os.path.join(V.workdir("C14-cfg"), "MC_Lsp_current.cfg")
+    base = open(os.path.join(SPEC, "MC_Lsp_impl.cfg")).read()
+    open(cur, "w").write("\n".join(("CONSTANT Deviations = " + L.tla_set(d for d in ALL_DEVS if d in open_devs)) if l.startswith("CONSTANT Deviations") else l
+                                   for l in base.splitlines()) + "\n")
+    for cfg, what in ((os.path.join(SPEC, "MC_Lsp_ideal.cfg"), "ideal reading: Fresh, FreshShown, Total"),
+                      (cur, "reading of the current tree (open deviations only): properties weakened by the recorded witnesses")):
+        r = V.tlc(mc, cfg=cfg, workers=4, timeout=900, tag="C14-" + os.path.basename(cfg)[:-4])
+        cfg = os.path.basename(cfg)
         rep.add_tlc(r)
         if r.invariant_violated:
             rep.violations.append({"why": "design level: %s violated (%s)" % (cfg, what), "replay": {"tlc_output": V.tail(r.out, 60)}, "id": cfg})
@@ -352,15 +362,15 @@ def design_level(rep, tier):
         r = V.tlc(mc, cfg=os.path.join(SPEC, "MC_Lsp_vac_%s.cfg" % inv), workers=2, timeout=600, tag="C14-vac-" + inv)
         if not r.invariant_violated:
             raise V.ToolError("vacuity: the reading as coded does not violate %s, the deviation disjuncts are dead" % inv)
-    rep.notes.append("witness runs: the reading as coded violates each un-weakened invariant (deviation disjuncts are live)")
+    rep.notes.append("witness runs: the reading pinned at the original commit (all six deviations) violates each un-weakened invariant (deviation disjuncts are live, the pinned reading is refuted against the ideal)")
     return True
 
 
 def main(tier):
     rep = V.Report("C14", tier)
-    L.add_local_findings(rep, os.path.dirname(os.path.abspath(__file__)))
+    open_devs = L.add_local_findings(rep, os.path.dirname(os.path.abspath(__file__)))
     mos = V.build_mos()
-    if not design_level(rep, tier):
+    if not design_level(rep, tier, open_devs):
         return rep.finish()
     wd = V.fresh_dir("C14")
     roots = {}
@@ -409,7 +419,18 @@ def main(tier):
     replay = {x[0]["id"]: x[1] for x in results}
 
     judge_mod, judge_cfg = os.path.join(SPEC, "LspTrace.tla"), os.path.join(SPEC, "LspTrace.cfg")
-    verdicts, st = V.judge(judge_mod, recs, cfg=judge_cfg, tag="C14-judge", batch=400, timeout=1800)
+    devs_now, devs_pinned = os.path.join(wd, "devs-now.ndjson"), os.path.join(wd, "devs-pinned.ndjson")
+    V.write_ndjson(devs_now, [{"dev": d} for d in ALL_DEVS if d in open_devs] or [{"dev": "-"}])
+    V.write_ndjson(devs_pinned, [{"dev": d} for d in ALL_DEVS])
+    verdicts, st = V.judge(judge_mod, recs, cfg=judge_cfg, env={"DEVS": devs_now}, tag="C14-judge", batch=400, timeout=1800)
+    # binding demonstration for repaired position defects: folded in the reading pinned at the original commit, the same
+    # recordings must be refuted by TLC (the model predicts a crash where the server answered)
+    if {"PrepareRenameSlicesPastEol", "SourceLinePastEof", "CompletionSplitsInsideChar"} - open_devs:
+        pv, _ = V.judge(judge_mod, recs[:600], cfg=judge_cfg, env={"DEVS": devs_pinned}, tag="C14-pinned", batch=600, timeout=1800)
+        npin = sum(1 for v in pv if v["verdict"] == "drift")
+        if npin == 0:
+            raise V.ToolError("binding: the pinned reading (all deviations) explains recordings of a tree in which position defects are repaired")
+        rep.notes.append("pinned reading refuted on the recordings: %d requests answered where it predicts a crash" % npin)
     rep.add_stats(st)
 
     # binding demonstration: corrupt one field of accepted sessions; TLC has to reject each
@@ -435,7 +456,7 @@ def main(tier):
             m["shownH"][1]["d"] = '[[0,0,0,1,"x"]]'
             m["lastRound"] = ["inc.asm", "main.asm", "other.asm"]
         muts.append(m)
-    mv = V.judge(judge_mod, muts, cfg=judge_cfg, tag="C14-selftest")[0] if muts else []
+    mv = V.judge(judge_mod, muts, cfg=judge_cfg, env={"DEVS": devs_now}, tag="C14-selftest")[0] if muts else []
     caught = {v["id"] for v in mv if v["verdict"] == "violation"}
     if caught != {m["id"] for m in muts}:
         raise V.ToolError("judge self-test: corrupted sessions not rejected: %s" % sorted({m["id"] for m in muts} - caught))
